@@ -18,7 +18,7 @@ from ..dataflow import DefUse
 from ..irschema import ir_classes, ir_schema
 from ..sites import guard_chain
 from .c10 import slot_access
-from .util import canon, cguards, dict_of
+from .util import canon, cguards, cguards_any, dict_of
 import re
 
 
@@ -111,7 +111,7 @@ def run(repo: Repo, rep: Report, tier: str) -> None:
     rep.check(ok, "C20-R3", "a declared name overrides the node id in the label", "debug_info['variable'] = declared_name whenever the node is user-declared and has a declared name" if ok else
               ("override missing" if not ov else f"the override is additionally conditioned on {extra}: a user-declared input can be labelled with another name"), bdi.loc(ov[0]) if ov else bdi.loc())
     det = [n for n in walk_local(bdi.node) if isinstance(n, ast.Assign) and isinstance(n.targets[0], ast.Subscript) and isinstance(n.targets[0].value, ast.Name) and n.targets[0].value.id in ret_names
-           and norm(n.targets[0].slice) == "'details'" and any("isinstance(op, IRConst)" == t and pol for t, pol in cguards(bdi, n))]
+           and norm(n.targets[0].slice) == "'details'" and any("isinstance(op, IRConst)" == t and pol for t, pol in cguards_any(bdi, n))]
     alts = cbdi.alts(det[0].value) if det else []
     ok = bool(det) and any("value={op.value}" in a_ for a_ in alts) and any("AUG(' (input)')" in a_ for a_ in alts)
     inp = [n for n in walk_local(bdi.node) if isinstance(n, ast.AugAssign) and "(input)" in norm(n.value)]
@@ -148,7 +148,9 @@ def run(repo: Repo, rep: Report, tier: str) -> None:
     conds = sorted(conds_all)
     ok = "entry.debug_label and entry.debug_label != signal_id and (not entry.consumers)" in conds and "entry.output_aliases" in conds
     rep.check(ok, "C20-R4", "is_output <=> (labelled and unconsumed) or (has unreferenced aliases)", "; ".join(conds), an.loc())
-    oa = [n for n in walk_local(an.node) if isinstance(n, ast.If) and re.fullmatch(r"ELEM\(.+\.alias_names\) not in self\.referenced_signal_names", can_.text(n.test))]
+    oa = [c_ for c_ in calls_in(an.node, "add") if isinstance(c_.func, ast.Attribute) and norm(c_.func.value).endswith(".output_aliases")
+          and any(re.fullmatch(r"ELEM\(.+\.alias_names\) in self\.referenced_signal_names", g) and not pol for g, pol in cguards(an, c_))
+          and re.fullmatch(r"ELEM\(.+\.alias_names\)", can_.text(c_.args[0]))]
     rep.check(bool(oa), "C20-R4", "an alias is output-only iff its name was never read", "alias_name not in referenced_signal_names" if oa else "", an.loc())
 
     # ---------------- R5 ---------------------------------------------------------------
